@@ -24,6 +24,7 @@ def canon_py(obj):
 
 
 COMPOSITE = "!composite:"
+FIXTIME = "!fixtime:"
 
 
 def composite_reference(marker):
@@ -48,6 +49,15 @@ def match(m, py, path=""):
     """model JSON (pvalJson) vs python value; None if equal"""
     if isinstance(py, np.ndarray):
         py = [np.datetime64(int(x), "ns") for x in py.astype("datetime64[ns]").astype("int64")] if py.dtype.kind == "M" else py.tolist()
+    if "s" in m and isinstance(m["s"], str) and m["s"].startswith(FIXTIME):
+        # fix_attitude_time: 1 January of the year of the first-point ISO text + the timedelta (ns)
+        first, ns = m["s"][len(FIXTIME):].rsplit("#", 1)
+        iso = composite_reference(first)
+        if iso.startswith("raises:"):
+            return f"{path}: first point not evaluable ({iso})"
+        want = np.datetime64(f"{iso[:4]}-01-01", "ns") + np.timedelta64(int(ns), "ns")
+        ok = isinstance(py, np.datetime64) and py.astype("datetime64[ns]") == want
+        return None if ok else f"{path}: attitude time {want} vs {py!r}"
     if "s" in m and isinstance(m["s"], str) and m["s"].startswith(COMPOSITE):
         want = composite_reference(m["s"])
         return None if (isinstance(py, str) and want == py) else f"{path}: composite datetime {want!r} vs {py!r}"
@@ -138,6 +148,9 @@ def real(what, data, n=None):
             from ceos_alos2.sar_image.metadata import transform_line_metadata
             rec = recs["signal_data_record" if what == "lines10" else "processed_data_record"]
             return {"ok": canon_py(transform_line_metadata(to_dict(list(rec[n].parse(data))))), "kind": "grp"}
+        if what == "leader":
+            from ceos_alos2.sar_leader.metadata import transform_metadata
+            return {"ok": canon_py(transform_metadata(to_dict(S.sar_leader_record.parse(data)))), "kind": "grp"}
         table = {
             "dataset_summary": ("dataset_summary_record", "ceos_alos2.sar_leader.dataset_summary", "transform_dataset_summary"),
             "radiometric": ("radiometric_data_record", "ceos_alos2.sar_leader.radiometric_data", "transform_radiometric_data"),
@@ -187,11 +200,23 @@ def gen_cases(seed, tier):
                 ov = {"number_of_points": npts, "preamble.record_length": 16 + npts * 120 + rng.choice([0, 8, 100])}
             if what == "map_projection" and rng.random() < 0.4:  # designators outside the table / in other spellings / without '-'
                 ov = {"map_projection_designator": rng.choice(["utm-x", "Ups-PROJECTION", "LCC-", "mer-CATOR", "XYZ-PROJECTION", "-", "UTM", "", "UTM PROJECTION", "lcc-a-b"])}
-            if what == "platform_position" and rng.random() < 0.5:  # date / seconds shapes incl. invalid ones and half-microsecond ties
+            if what == "platform_position" and _ < 2:  # a stamp inside a leap second / beyond the day: the carry goes into the date (and the year)
+                ov = {"datetime_of_first_point.date": ["2016 12 31", "2015 06 30"][_], "datetime_of_first_point.seconds_of_day": ["86400.75", "8.640000000000000E+04"][_]}
+            elif what == "platform_position" and rng.random() < 0.5:  # date / seconds shapes incl. invalid ones and half-microsecond ties
                 ov = {"datetime_of_first_point.date": rng.choice(["2019 10 11", "2020  2 29", "2019 02 29", "2019-10-11", "20191011", "", "2016 12 31"]),
                       "datetime_of_first_point.seconds_of_day": rng.choice(["86399.999", "8.639999900000000E+04", "0.0000005", "1.0000015", "12.3456785", "-1", "1e5", "nan", "inf", ""])}
             data, _, _ = synth.Builder(rng, overrides=ov, required=r, blank_prob=rng.choice([0, 0.2, 0.8]), unknown_enum_prob=0.1).build(ir)
             cases.append((what, data, None))
+    import oracle_tree
+    import products
+    for _ in range(k):  # whole leader files through transform_metadata (record selection, renames, attitude time fix-up)
+        cfg = oracle_tree.random_cfg(rng, tier, n_lines=1, n_pixels=1, images=[("HH", None)])
+        cfg["n_att"] = rng.choice([1, 2, 5, 22])
+        if rng.random() < 0.35:
+            cfg["leader_overrides"] = {"platform_position.datetime_of_first_point.date": rng.choice(["2016 12 31", "2019 12 31", "2020 02 28"]),
+                                       "platform_position.datetime_of_first_point.seconds_of_day": rng.choice(["86400.5", "86399.999", "172800"])}
+        prod = products.build(cfg)
+        cases.append(("leader", [v for n_, v in prod.files.items() if n_.startswith("LED")][0], None))
     for _ in range(k):
         ov = {"volume_descriptor.number_of_file_pointer_records": rng.randint(0, 5)}
         if rng.random() < 0.2:
@@ -208,7 +233,7 @@ def gen_cases(seed, tier):
     for level, what, key in (("1.1", "lines10", "signal_data_record"), ("1.5", "lines11", "processed_data_record")):
         for _ in range(k):
             n = rng.choice([1, 2, 3, 5])
-            im = synth.build_image(lay, req, rng, level, "HH", None, n, rng.randint(0, 2), "WWDR1.5RUA")
+            im = synth.build_image(lay, req, rng, level, "HH", None, n, rng.randint(0, 2), "WWDR1.5RUA", vary_constants=rng.random() < 0.5)
             cases.append((what, im.data[720:], n))
     return cases
 
